@@ -20,7 +20,8 @@ EXPLANATION = (
     "goes through the constructor, converting its ValueError; functions building wavefunctions from arrays go through "
     "the constructor; (D4) _check_normalization: numeric branch sums |a|^2 and raises unless isclose(.., 1), "
     "symbolic branch sums the numeric entries (probe accepts complex numbers) and raises when the sum exceeds 1; "
-    "probabilities are |amplitudes|^2; (D5) save/load key agreement and loader interface."
+    "probabilities are |amplitudes|^2; (D5) save/load key agreement and loader interface. "
+    "(D2o) __setitem__ never replaces the amplitude container between the write and the rollback; (D2s) the saved old value is a copy (a slice of a numpy vector is a view); (D4c) the numeric-entry classifier is complete for symbol-free expressions (no is_Number-style atomic predicates); (D5o) no one-sided test on an imaginary part on the save path."
 )
 RULE_TEXT = "instances = CFG nodes of the constructor/__setitem__/bind, stores to the amplitude field anywhere in the package, branches of the normalisation check, record keys; distinct by (rule, construct)"
 ASSUMPTIONS = [
